@@ -240,6 +240,35 @@ theorem VReach.spec {big eps2 : α} (L : List (Fix α)) (hbig : ∀ a b c, a ∈
     · rw [r3, vwBody_map_fst, head?_eraseIdx_pos _ _ h0]
     · rw [r4, vwBody_map_fst, getLast?_eraseIdx_interior _ _ (by rw [List.length_map]; exact h1)]
 
+/-! ### no hypothesis on the areas: the last observation stays -/
+
+/-- whatever the areas: no index that a tie-break may answer is the last one (its entry is NaN) while more than one observation remains -/
+theorem tieIds_not_last (big : α) (S : VState α) (hl : 1 < S.length) (h : LastNaN S) (j : Nat)
+    (hj : j ∈ tieIds big (S.map (·.2))) : j + 1 < S.length := by
+  rcases mem_tieIds _ _ _ hj with e | ⟨w, hw⟩
+  · rw [e]; exact argmin_not_last big S hl h
+  · obtain ⟨p, hp⟩ := map_snd_num S j w hw
+    have hjlt : j < S.length := (List.getElem?_eq_some_iff.mp hp).1
+    by_cases hc : j = S.length - 1
+    · obtain ⟨q, hq⟩ := h; rw [← hc] at hq; rw [hq] at hp; simp at hp
+    · omega
+
+/-- a run with any tie-break, **no hypothesis on the areas**: the last observation stays, two or more observations stay two or more -/
+theorem VReach.any {big eps2 : α} {S S' : VState α} (r : VReach big eps2 S S') :
+    LastNaN S → LastNaN S' ∧ (S'.map (·.1)).getLast? = (S.map (·.1)).getLast? ∧ (2 ≤ S.length → 2 ≤ S'.length) := by
+  induction r with
+  | refl S => intro h; exact ⟨h, rfl, fun h => h⟩
+  | step hm _ ih =>
+    intro h
+    obtain ⟨id, hid, e, hl⟩ := vwNext_body _ _ _ _ hm
+    subst e
+    have h1 := tieIds_not_last big _ (by omega) h id hid
+    rw [vwBody_eq_bodyL] at ih
+    obtain ⟨a, b, c⟩ := bodyL_any _ id h h1
+    obtain ⟨r1, r2, r3⟩ := ih a
+    refine ⟨r1, ?_, fun _ => r3 (by omega)⟩
+    rw [r2, c, getLast?_eraseIdx_interior _ _ (by rw [List.length_map]; exact h1)]
+
 /-! ### the driver's enumeration is sound -/
 
 theorem mem_dedupTags (l : List (VState α)) (S : VState α) (h : S ∈ dedupTags l) : S ∈ l := by
